@@ -95,6 +95,9 @@ type RawResponse struct {
 	Body   []byte
 }
 
+// HdrChunked in the header list of RawDo asks for a body in chunked transfer encoding (the entry itself is not sent).
+const HdrChunked = "X-Verif-Raw-Chunked"
+
 // Hdr is an ordered header list (byte-exact names, repeated entries allowed).
 type Hdr struct{ Name, Value string }
 
@@ -109,14 +112,35 @@ func RawDo(addr, method, target, host string, hdrs []Hdr, body []byte) (*RawResp
 	_ = conn.SetDeadline(time.Now().Add(15 * time.Second))
 	var b bytes.Buffer
 	fmt.Fprintf(&b, "%s %s HTTP/1.1\r\nHost: %s\r\n", method, target, host)
+	chunked := false
 	for _, h := range hdrs {
+		if h.Name == HdrChunked { // not sent: asks for chunked framing of the body
+			chunked = len(body) > 0
+			continue
+		}
 		fmt.Fprintf(&b, "%s: %s\r\n", h.Name, h.Value)
 	}
-	if len(body) > 0 || method == "POST" || method == "PUT" || method == "PATCH" {
+	switch {
+	case chunked:
+		b.WriteString("Transfer-Encoding: chunked\r\n")
+	case len(body) > 0 || method == "POST" || method == "PUT" || method == "PATCH":
 		fmt.Fprintf(&b, "Content-Length: %d\r\n", len(body))
 	}
 	b.WriteString("Connection: close\r\n\r\n")
-	b.Write(body)
+	if chunked {
+		// three chunks of uneven size
+		cuts := []int{0, len(body) / 3, len(body) / 3 * 2, len(body)}
+		for i := 0; i < 3; i++ {
+			if part := body[cuts[i]:cuts[i+1]]; len(part) > 0 {
+				fmt.Fprintf(&b, "%x\r\n", len(part))
+				b.Write(part)
+				b.WriteString("\r\n")
+			}
+		}
+		b.WriteString("0\r\n\r\n")
+	} else {
+		b.Write(body)
+	}
 	if _, err := conn.Write(b.Bytes()); err != nil {
 		return nil, err
 	}
